@@ -1,5 +1,8 @@
 import ReplicatProofs.Lemmas.RepoSafety
 import ReplicatProofs.Lemmas.RepoCrash
+import ReplicatProofs.Lemmas.RepoConcSeq
+import ReplicatProofs.Lemmas.RepoConcRestore
+import ReplicatProofs.Lemmas.RepoConcSched
 /-!
 # C02 — no history of snapshot / delete / clean ever damages a remaining snapshot
 
@@ -200,6 +203,82 @@ theorem consistent_interleaved (enc : Bool) (s : Store) (u1 u2 : User) (st1 st2 
   obtain ⟨c1, c2⟩ := supported_interleave hi s s s (ChunkLe.refl s) (ChunkLe.refl s) a2 b2 a1 b1
   exact supported_consistent t s h c2 c1
 
+/-! ## overlapping non-destructive commands, call by call (`ReplicatModel/RepoConc.lean`)
+
+ANY number of snapshot commands of ANY users are in flight at once, each with its own pool of workers; every backend call is
+one event (`exists` observation, `upload`, `commit` of the snapshot object, `read` of a read-only command).  Two workers — of
+one command or of different ones — may both see a chunk absent and both upload it.  `crun cmds (CState.init s cmds) tr = some st`
+says: `tr` is a possible order of completed calls and leads to `st`; every prefix of such a trace is one too (`crun_append`). -/
+
+/-- **`Consistent` holds in every reachable state of every concurrent execution** of any number of snapshot commands by any
+users, started in a consistent repository: however the `exists` / `upload` / `commit` calls of the workers interleave, and
+wherever the execution is cut. -/
+theorem consistent_concurrent (enc : Bool) (s : Store) (cmds : List SnapCmd) (tr : List Ev) (st : CState)
+    (h : Consistent enc s) (hok : ∀ cmd ∈ cmds, OpOk enc cmd.op)
+    (hrun : crun cmds (CState.init s cmds) tr = some st) : Consistent enc st.store :=
+  (concInv_run hok (concInv_init cmds h) hrun).1
+
+/-- **A complete concurrent execution ends in the object map of the sequential run of the same commands, in ANY order**
+(chunk payloads are functions of (family, content), a snapshot object is a function of its command; `NamesOk`: a snapshot's
+name is the digest of its stored bytes).  Equal as maps, and — both stores having unique keys — equal as sets of objects. -/
+theorem concurrent_equals_sequential (enc : Bool) (s : Store) (cmds cmds' : List SnapCmd) (tr : List Ev) (st : CState)
+    (h : Consistent enc s) (hok : ∀ cmd ∈ cmds, OpOk enc cmd.op) (hn : NamesOk cmds)
+    (hrun : crun cmds (CState.init s cmds) tr = some st) (hdone : st.complete = true) (hperm : cmds'.Perm cmds) :
+    (∀ n, Repo.get st.store n = Repo.get (run enc s (cmds'.map SnapCmd.op)) n) ∧
+      st.store.Perm (run enc s (cmds'.map SnapCmd.op)) := by
+  have hmem : ∀ x, x ∈ cmds' ↔ x ∈ cmds := fun x => hperm.mem_iff
+  have hn' : NamesOk cmds' := fun a ha b hb => hn a ((hmem a).mp ha) b ((hmem b).mp hb)
+  have hf1 := isFinal_conc h hok hn hrun hdone
+  have hf2 : IsFinal s cmds (run enc s (cmds'.map SnapCmd.op)) :=
+    (isFinal_run enc cmds' s hn').of_mem_iff (fun x => (hmem x).symm)
+  have hget := hf1.unique hf2
+  refine ⟨hget, ?_⟩
+  have hwf1 : WF st.store := (consistent_concurrent enc s cmds tr st h hok hrun).1
+  have hwf2 : WF (run enc s (cmds'.map SnapCmd.op)) := run_wf enc _ s h.1
+  exact perm_of_get_eq hwf1 hwf2 hget
+
+/-- **The sequential history is one of the concurrent executions** (so the concurrent semantics extends the sequential model,
+and a complete execution exists for every list of commands whose pools have ≥ 1 worker): the trace "one command after the other,
+per chunk `exists` then upload if absent, then the snapshot object" is accepted, complete, and ends in literally the store of
+`run`. -/
+theorem sequential_is_concurrent (enc : Bool) (s : Store) (cmds : List SnapCmd) (hw : ∀ cmd ∈ cmds, 1 ≤ cmd.workers) :
+    ∃ st, crun cmds (CState.init s cmds) (seqTraceAll 0 s cmds) = some st ∧ st.complete = true ∧
+      st.store = run enc s (cmds.map SnapCmd.op) := by
+  have h := seqTraceAll_run enc cmds hw cmds [] s rfl
+  simp only [map_nil, nil_append, length_nil] at h
+  refine ⟨_, h, ?_, rfl⟩
+  simp [CState.complete]
+
+/-- **A snapshot that is listed at some point of a concurrent execution restores exactly at every later point** (README:
+non-destructive commands may overlap).  `st1` is any reachable state in which the snapshot object `(f, sid)` with body `b` is
+listed — it may have been there from the start or have been committed during the execution; `st2` is any state reachable from
+`st1`, with any further `exists` / `upload` / `commit` calls of any commands in between.  A user who can read the snapshot
+restores exactly its files.  `hname`: a command that produces this very name produces these very bytes (the name is the digest). -/
+theorem restore_unaffected_by_concurrent_snapshots (enc : Bool) (s : Store) (cmds : List SnapCmd) (tr1 tr2 : List Ev) (st1 st2 : CState)
+    (h : Consistent enc s) (hok : ∀ cmd ∈ cmds, OpOk enc cmd.op)
+    (h1 : crun cmds (CState.init s cmds) tr1 = some st1) (h2 : crun cmds st1 tr2 = some st2)
+    (u : User) (hu : UserOk enc u) (f : Fam) (sid : Nat) (b : Body)
+    (hlisted : get st1.store (.snap f sid) = some (.snap f sid b))
+    (hv : visible enc u f = true) (hr : (!enc || b.owner == u.key) = true)
+    (hname : ∀ cmd ∈ cmds, cmd.name = .snap f sid → cmd.obj = .snap f sid b) (fre : Nat → Bool) :
+    restore enc u (fun x => x == sid) fre st2.store = .ok (b.files.filter (fun fr => fre fr.path)) := by
+  have hc2 := consistent_concurrent enc s cmds (tr1 ++ tr2) st2 h hok (crun_append_of h1 h2)
+  exact restore_listed_exact enc u st2.store f sid b fre hc2 hu (snap_kept_run h2 hname hlisted) hv hr
+
+/-- **A restore that overlaps snapshot commands returns what the atomic restore at its listing point returns**: it lists and
+loads the snapshots in the reachable state `st1` and downloads each chunk `c` at some later point of the execution (`later c`),
+for any snapshot and file filters.  (So the `read` events of the concurrent semantics, which observe one store, lose nothing.) -/
+theorem restore_spanning_concurrent_snapshots (enc : Bool) (s : Store) (cmds : List SnapCmd) (tr1 : List Ev) (st1 : CState)
+    (h : Consistent enc s) (hok : ∀ cmd ∈ cmds, OpOk enc cmd.op) (h1 : crun cmds (CState.init s cmds) tr1 = some st1)
+    (u : User) (hu : UserOk enc u) (sre fre : Nat → Bool) (later : Content → Store)
+    (hlater : ∀ c, ∃ trc stc, crun cmds st1 trc = some stc ∧ stc.store = later c) :
+    restoreSpan enc u sre fre st1.store later = restore enc u sre fre st1.store := by
+  apply restoreSpan_eq sre fre (consistent_concurrent enc s cmds tr1 st1 h hok h1) hu
+  intro c
+  obtain ⟨trc, stc, hrun, heq⟩ := hlater c
+  rw [← heq]
+  exact chunkLe_run hok hrun
+
 /-! ## non-vacuity and the role of the unencrypted-repository convention -/
 
 /-- a concrete encrypted history: owner ⟨1,1⟩, shared-key user ⟨2,1⟩ and independent user ⟨3,2⟩ snapshot overlapping data; the
@@ -221,6 +300,33 @@ example :
   intro op hop
   simp only [mem_cons, not_mem_nil, or_false] at hop
   rcases hop with rfl | rfl | rfl | rfl | rfl | rfl <;> simp [OpOk, UserOk]
+
+/-- a concurrent execution of two snapshot commands of one key family whose data share chunk 11 (two workers each): BOTH
+commands see 11 absent and both upload it, a restore is issued in between; the trace is accepted, ends complete and in the
+object map of either sequential order; putting a snapshot object before one of its uploads is rejected -/
+example :
+    let cmds : List SnapCmd := [⟨⟨1, 1⟩, [10, 11], [⟨1, 1, [10, 11]⟩], 1, 100, 2⟩, ⟨⟨2, 1⟩, [11, 12], [⟨1, 2, [11]⟩], 2, 101, 2⟩]
+    let tr : List Ev := [.exists 0 10 false, .exists 1 11 false, .exists 0 11 false, .upload 1 (.chunk 1 11) (.chunk 1 11),
+      .upload 0 (.chunk 1 10) (.chunk 1 10), .read (.restore ⟨1, 1⟩ none none), .upload 0 (.chunk 1 11) (.chunk 1 11),
+      .exists 1 12 false, .commit 0, .read (.restore ⟨1, 1⟩ (some [100]) none), .upload 1 (.chunk 1 12) (.chunk 1 12), .commit 1]
+    (∀ cmd ∈ cmds, OpOk true cmd.op) ∧ NamesOk cmds ∧
+    (crun cmds (CState.init initStore cmds) tr).map (·.complete) = some true ∧
+    (crun cmds (CState.init initStore cmds) tr).map (fun st => get st.store (.chunk 1 11)) = some (some (.chunk 1 11)) ∧
+    (crun cmds (CState.init initStore cmds) tr).map (fun (st : CState) =>
+        [Name.chunk 1 10, .chunk 1 11, .chunk 1 12, .snap 1 100, .snap 1 101, .config].map (Repo.get st.store)) =
+      some ([Name.chunk 1 10, .chunk 1 11, .chunk 1 12, .snap 1 100, .snap 1 101, .config].map
+        (Repo.get (run true initStore (cmds.reverse.map SnapCmd.op)))) ∧
+    -- the restore issued right after `commit 0`, while command 1 is still uploading, returns snapshot 100's files
+    (crun cmds (CState.init initStore cmds) (tr.take 9)).map (fun st =>
+        (restore true ⟨1, 1⟩ (fun x => x == 100) (fun _ => true) st.store).toOption) = some (some [⟨1, 1, [10, 11]⟩]) ∧
+    (crun cmds (CState.init initStore cmds) (tr.take 8 ++ [.commit 1])).isNone = true := by
+  refine ⟨?_, ?_, by decide +kernel, by decide +kernel, by decide +kernel, by decide +kernel, by decide +kernel⟩
+  · intro cmd hc
+    simp only [mem_cons, not_mem_nil, or_false] at hc
+    rcases hc with rfl | rfl <;> simp [SnapCmd.op, OpOk, UserOk]
+  · intro a ha b hb hab
+    simp only [mem_cons, not_mem_nil, or_false] at ha hb
+    rcases ha with rfl | rfl <;> rcases hb with rfl | rfl <;> first | rfl | (simp [SnapCmd.name] at hab)
 
 /-- a prefix that puts the snapshot object before one of its chunks is NOT accepted (the ordering constraint is real), while
 any order of the chunk uploads is -/
